@@ -199,6 +199,11 @@ def main():
         lines.append('VIOLATION property=%s replay=%s no-failing-input-found' % (prop, path))
         violations = max(1, len(disagrees))
 
+    # ---- notes: correspondence of model code that no property states (reported, never a verdict)
+    allnotes = [x for (_c, _i, _m, v) in results for x in v.get('notes', [])]
+    for x in allnotes[:3]:
+        lines.append('NOTE property=%s (model code beyond the property, not a verdict) %s' % (prop, x[:300]))
+
     # ---- evidence
     nontriv = set()
     dist = {}
@@ -232,6 +237,8 @@ def main():
             rule=getattr(mod, 'RULE', ''), exhaustive=bool(getattr(mod, 'EXHAUSTIVE', {}).get(tier, False)),
             traces_validated_against_impl=len(results), corpus_cases=ncorpus,
             extraction_cross_checked=XCHECK[0], disagreements=len(disagrees), property_failures=len(fails), known_finding_cases=sum(len(v) for v in known_hit.values()),
+            beyond_property=dict(what='correspondence of model code that no property states; a difference is reported as a NOTE line and does not change the verdict',
+                                 differences=len(allnotes), first=allnotes[:3]),
             distribution=dist, samples=samples or [dict(note='no case was run (build failed)')]),
         assumptions=getattr(mod, 'ASSUMPTIONS', []))
     # runs against a patched scratch copy (selftest/with_patch.sh sets VERIF_REPO) must not overwrite the evidence of /repo
